@@ -88,6 +88,31 @@ pub fn drive(args: &[String]) {
         if t == s { t = s % nv + 1; }
         emit(&mut sink, &edges, s, t, "random");
     }
+    // layered networks with bottlenecks and skip arcs (source -> layers of width 1..3 -> sink, arcs between consecutive layers
+    // with probability 0.8, arcs skipping one layer with probability 0.35), randomly relabelled: several flow paths meet in
+    // one vertex and maximum flows need re-routing through backward arcs - the hard case of every augmenting-path method
+    let nl = arg_usize(args, "--layered", 0);
+    for _ in 0..nl {
+        let depth = rng.gen_range(2..=4usize);
+        let mut layers: Vec<Vec<usize>> = vec![vec![1]];
+        let mut next = 2;
+        for _ in 0..depth { let w = *[1usize, 1, 2, 2, 3].choose(&mut rng).unwrap(); layers.push((next..next + w).collect()); next += w; }
+        layers.push(vec![next]);
+        let nv = next;
+        if nv > 9 { continue; }
+        let mut edges: Vec<(usize, usize)> = vec![];
+        for k in 0..layers.len() - 1 {
+            for &a in &layers[k] { for &b in &layers[k + 1] { if rng.gen_bool(0.8) { edges.push((a, b)); } } }
+            if k + 2 < layers.len() { for &a in &layers[k] { for &b in &layers[k + 2] { if rng.gen_bool(0.35) { edges.push((a, b)); } } } }
+        }
+        if rng.gen_bool(0.3) { let a = rng.gen_range(2..nv); let b = rng.gen_range(2..nv); if a != b && !edges.contains(&(a, b)) { edges.push((a, b)); } }
+        if edges.is_empty() || edges.len() > 16 { continue; }
+        let mut names: Vec<usize> = (1..=nv).collect();
+        names.shuffle(&mut rng);
+        let f = |v: usize| names[v - 1];
+        let e2: Vec<(usize, usize)> = edges.iter().map(|&(a, b)| (f(a), f(b))).collect();
+        emit(&mut sink, &e2, f(1), f(nv), "layered");
+    }
     sink.flush();
     println!("{}", json!({"events": sink.n}));
 }
